@@ -1023,17 +1023,22 @@ namespace bloch::runtime {
                 if (auto named = dynamic_cast<NamedType*>(clsNode->baseType.get())) {
                     if (!named->nameParts.empty()) {
                         populateByName(named->nameParts.back());
-                        // a generic base is instantiated below; its template's own base must be
-                        // complete by then
-                        auto tmplIt = m_genericTemplates.find(named->nameParts.back());
-                        if (tmplIt != m_genericTemplates.end() && tmplIt->second) {
+                        // a generic base is instantiated below; every class its template chain
+                        // (G<T> extends H<T> extends Plain ...) leads to must be complete by then
+                        std::string link = named->nameParts.back();
+                        for (size_t hops = 0; hops <= m_genericTemplates.size(); ++hops) {
+                            auto tmplIt = m_genericTemplates.find(link);
+                            if (tmplIt == m_genericTemplates.end() || !tmplIt->second)
+                                break;
                             auto* tmpl = tmplIt->second;
-                            if (auto tb = dynamic_cast<NamedType*>(tmpl->baseType.get())) {
-                                if (!tb->nameParts.empty())
-                                    populateByName(tb->nameParts.back());
-                            } else if (!tmpl->baseName.empty()) {
-                                populateByName(tmpl->baseName.back());
-                            }
+                            auto tb = dynamic_cast<NamedType*>(tmpl->baseType.get());
+                            if (tb && !tb->nameParts.empty())
+                                link = tb->nameParts.back();
+                            else if (!tmpl->baseName.empty())
+                                link = tmpl->baseName.back();
+                            else
+                                break;
+                            populateByName(link);
                         }
                     }
                 }
